@@ -45,4 +45,25 @@ def cached : List Cached := [
   ⟨"tensordict/persistent.py", "PersistentTensorDict", "_valid_keys", [], false, false⟩
 ]
 
+/-- fingerprints of the syntax trees of the transcribed functions (file, function, def | getter | setter, fingerprint; 0 = not found) -/
+def cacheCode : List (String × String × String × Nat) := [
+  ("tensordict/utils.py", "cache", "def", 150685775575764),
+  ("tensordict/utils.py", "_make_cache_key", "def", 186837335423253),
+  ("tensordict/utils.py", "erase_cache", "def", 239106187870284),
+  ("tensordict/base.py", "TensorDictBase._erase_cache", "def", 190181464572807),
+  ("tensordict/base.py", "TensorDictBase._erase_cache_up", "def", 49411097632057),
+  ("tensordict/base.py", "TensorDictBase._batch_size_setter", "def", 155495785227950),
+  ("tensordict/base.py", "TensorDictBase.clear_device_", "def", 171375968971322),
+  ("tensordict/base.py", "TensorDictBase._set_device", "def", 38923840367939),
+  ("tensordict/base.py", "TensorDictBase.auto_device_", "def", 55593694086078),
+  ("tensordict/_td.py", "TensorDict.names", "setter", 256541085177609),
+  ("tensordict/_td.py", "TensorDict._erase_names", "def", 114851756678430),
+  ("tensordict/_td.py", "TensorDict._rename_subtds", "def", 105382731557165),
+  ("tensordict/_lazy.py", "LazyStackedTensorDict.names", "getter", 269035792762992),
+  ("tensordict/_lazy.py", "LazyStackedTensorDict.names", "setter", 234113662859993),
+  ("tensordict/_lazy.py", "LazyStackedTensorDict._erase_names", "def", 152738123587569),
+  ("tensordict/_lazy.py", "LazyStackedTensorDict._rename_subtds", "def", 67788134349883),
+  ("tensordict/_lazy.py", "LazyStackedTensorDict.clear_device_", "def", 151305357075050)
+]
+
 end TdVerif.Gen.CacheTable
